@@ -52,6 +52,9 @@ func c15types() []c15type {
 			all = append(all, c15type{"lr-bits", "leafref { path \"/tgtb\"; }", t.gen, t.jv})
 		case "string":
 			all = append(all, c15type{"lr-string", "leafref { path \"/tgts\"; }", t.gen, t.jv})
+		case "lr-string":
+			// a leafref to a leafref to a string
+			all = append(all, c15type{"lr-string2", "leafref { path \"/tgtl2\"; }", t.gen, t.jv})
 		case "identityref":
 			all = append(all, c15type{"lr-ident", "leafref { path \"/tgti\"; }", t.gen, t.jv})
 		}
@@ -486,10 +489,10 @@ func c15module(sc *c15schema, ts []c15type) (*meta.Module, string, error) {
 	sc.types["gl"], sc.types["gi"], sc.types["gx"], sc.types["ga"] = ts[0], c15gIdentType, ts[3], ts[0]
 	sc.types["gca"], sc.types["gcm"], sc.types["gq"] = ts[0], ts[0], ts[0]
 	// the leaves the leafref types point to: ordinary leaves of the schema
-	for n, tn := range map[string]string{"tgte": "enum", "tgtu": "union", "tgtb": "bits", "tgti": "identityref", "tgts": "string"} {
+	for n, tn := range map[string]string{"tgte": "enum", "tgtu": "union", "tgtb": "bits", "tgti": "identityref", "tgts": "string", "tgtl2": "lr-string"} {
 		sc.types[n], sc.mod[n] = c15typeNamed(ts, tn), "m"
 	}
-	for _, n := range []string{"tgte", "tgtu", "tgtb", "tgti", "tgts"} {
+	for _, n := range []string{"tgte", "tgtu", "tgtb", "tgti", "tgts", "tgtl2"} {
 		sc.kids = append(sc.kids, &gen.SNode{Name: n, Kind: "leaf", Type: sc.types[n].yang})
 	}
 	sc.kids = append(sc.kids, gc)
